@@ -37,6 +37,7 @@ fn gate(p: &Partial, _t: Tier) -> Result<(), String> {
     super::need(p, "c:live-row-survives-sweep", 100)?;
     super::need(p, "d:fresh-row-after-expiry", 20)?;
     super::need(p, "filtered-frame-no-refresh", 100)?;
+    super::need(p, "crowded-table", 20)?;
     Ok(())
 }
 
@@ -286,6 +287,50 @@ fn run(ctx: &mut Ctx) {
             run_one(ctx, p, depth);
         }
     }
+    // crowded tables: n live aircraft and one that has been silent for delete_after seconds; after 12
+    // accepted frames (one run) the silent one is gone and every live one is still there
+    for (k, n) in [1usize, 10, 80, 87, 88, 89, 100, 500, 2000].iter().enumerate() {
+        if !ctx.mine(10_000 + k as u64) {
+            continue;
+        }
+        for (d, upd) in [(60i64, false), (1, true), (600, false)] {
+            let mut o = vec!["-d".to_string(), d.to_string()];
+            if upd {
+                o.push("-U".into());
+            }
+            let ov: Vec<&str> = o.iter().map(|s| s.as_str()).collect();
+            let cfg = Cfg::new(&ov);
+            // build the table through the reader: n aircraft (DF11), then the one that will fall silent
+            let mut lines: Vec<Vec<u8>> = (0..*n as u32).map(|i| frames::df11(5, 0x400000 + i, 0).hex().into_bytes()).collect();
+            lines.push(frames::df11(5, A, 0).hex().into_bytes());
+            let t = crate::snap::new_table();
+            let _ = crate::run::run_file(&cfg, &crate::run::join_lines(&lines), &t);
+            let mut rows = crate::snap::snapshot(&t);
+            for r in rows.iter_mut() {
+                if r.key == A {
+                    r.tick(d * 1000);
+                } else {
+                    r.tick(((d - 1) * 1000).max(0));
+                }
+            }
+            let b = frames::df17(5, B, frames::me_ident(4, 1, frames::callsign_codes("BBBBB")));
+            let t2 = crate::snap::restore(&rows);
+            let oc = crate::run::run_file(&cfg, &crate::run::join_lines(&vec![b.hex().into_bytes(); 12]), &t2);
+            let after = crate::snap::snapshot(&t2);
+            ctx.eval();
+            ctx.count("crowded-table");
+            let silent_gone = !after.iter().any(|r| r.key == A);
+            let live_kept = rows.iter().filter(|r| r.key != A).all(|r| after.iter().any(|x| x.key == r.key));
+            if !oc.is_ok() || !silent_gone || !live_kept {
+                ctx.violation(
+                    &format!("C12/crowded/d={d}{}", if upd { " -U" } else { "" }),
+                    &format!("{n} live aircraft"),
+                    || format!("{n} live aircraft (heard {} s ago) and one silent for {d} s, then 12 accepted frames: silent aircraft removed: {silent_gone}; all live aircraft kept: {live_kept}; {} rows", (d - 1).max(0), after.len()),
+                    || json!({"crowded": n, "d": d, "upd": upd}),
+                );
+            }
+        }
+    }
     ctx.sample(|| json!({"params": "d=5 default F=DF4", "history": ["DF4(A)", "tick 4999 ms", "DF4(A)", "tick 5000 ms", "burst(B)x12"], "expected": "A present with age 0 after step 3; A absent after the burst"}));
     ctx.bound("depth", depth);
     ctx.bound("parameter sets", param_sets().len());
@@ -293,6 +338,35 @@ fn run(ctx: &mut Ctx) {
 }
 
 fn replay(ctx: &mut Ctx, case: &Value) {
+    if let Some(n) = case.get("crowded").and_then(|x| x.as_u64()) {
+        let d = case.get("d").and_then(|x| x.as_i64()).unwrap_or(60);
+        let upd = case.get("upd").and_then(|x| x.as_bool()).unwrap_or(false);
+        let mut o = vec!["-d".to_string(), d.to_string()];
+        if upd {
+            o.push("-U".into());
+        }
+        let ov: Vec<&str> = o.iter().map(|s| s.as_str()).collect();
+        let cfg = Cfg::new(&ov);
+        let mut lines: Vec<Vec<u8>> = (0..n as u32).map(|i| frames::df11(5, 0x400000 + i, 0).hex().into_bytes()).collect();
+        lines.push(frames::df11(5, A, 0).hex().into_bytes());
+        let t = crate::snap::new_table();
+        let _ = crate::run::run_file(&cfg, &crate::run::join_lines(&lines), &t);
+        let mut rows = crate::snap::snapshot(&t);
+        for r in rows.iter_mut() {
+            if r.key == A { r.tick(d * 1000); } else { r.tick(((d - 1) * 1000).max(0)); }
+        }
+        let b = frames::df17(5, B, frames::me_ident(4, 1, frames::callsign_codes("BBBBB")));
+        let t2 = crate::snap::restore(&rows);
+        let _ = crate::run::run_file(&cfg, &crate::run::join_lines(&vec![b.hex().into_bytes(); 12]), &t2);
+        let after = crate::snap::snapshot(&t2);
+        let silent_gone = !after.iter().any(|r| r.key == A);
+        let live_kept = rows.iter().filter(|r| r.key != A).all(|r| after.iter().any(|x| x.key == r.key));
+        crate::run::say(&format!("{n} live aircraft + one silent for {d} s, then 12 accepted frames: silent removed {silent_gone}, live kept {live_kept}"));
+        if !silent_gone || !live_kept {
+            ctx.violation("C12/crowded", "replay", || "crowded table sweep".into(), || case.clone());
+        }
+        return;
+    }
     let p = Params {
         d: case.get("d").and_then(|x| x.as_i64()).unwrap_or(60),
         upd: case.get("upd").and_then(|x| x.as_bool()).unwrap_or(false),
